@@ -27,6 +27,31 @@
 //    realized to Stage::Time before every stepTo like TimeStepper does.
 //  * requested localisation windows below 1e-12*max(1,t) are clamped to that floor (cannot beat roundoff).
 //  * scheduled times equal to the last stepTo target are optional (TimeStepper documents nothing there).
+//
+// Tolerances (DESIGN §1.4): analytic crossing times are compared with 2e-9 time slack plus twice the measured
+// deviation of the observed state from the analytic trajectory mapped to time (zero for exactly integrated
+// components, so the slack only widens where the integrator itself is inexact); witness signs are judged up
+// to 1e-12 relative roundoff of the witness; "state on trajectory" 1e-10 relative (CPodes: + 1e-2*accuracy,
+// its linear components are exact only up to a fraction of its tolerance while the step size recovers).
+//
+// Behaviour seen on the unchanged tree that is counted (c.obs) but NOT judged, with the reason:
+//  * before-state-marginally-past-crossing: the before-state returned with ReachedEventTrigger is
+//    re-interpolated after the advanced state was backed up to tHigh, so for inexactly interpolated
+//    trajectories it differs (by about the local error) from the state on which localisation decided; a
+//    listed witness can already be past zero there by less than the integration accuracy.
+//  * roundoff-level-rereport: a witness whose value at the restart is at roundoff level may be reported again
+//    immediately (sign at the start not decidable).
+//  * scheduled-report-inside-event-window-dropped: a scheduled *report* whose time falls inside a localisation
+//    window (not known when the window was built) is dropped when the handler changes the state and served
+//    after the handler (out of time order) when it does not: the window is "no man's land" by design.
+//
+// Attribution (DESIGN §1.5a): anomalies of events reported by CPodes within one step of a (re)start at
+// which some witness is exactly zero are keyed "cpodes-restart:..." whatever oracle noticed them; a state
+// that changes although no time passed and no handler touched it is keyed "continue:state-changed-without-
+// integration:<class>"; handlers of the default subsystem called at another subsystem's scheduled time are
+// keyed "sched:called-at-unscheduled-time:two-subsystems-own-scheduled-events".
+// A per-case budget of derivative evaluations (no wall clock) turns a library loop that keeps evaluating the
+// system into an exception; a runaway of handler calls is stopped by the handlers themselves.
 #include "vh.h"
 #include "SimTKcommon.h"
 #include "SimTKcommon/internal/SystemGuts.h"
